@@ -55,7 +55,7 @@ def _deep(x):
 
 
 def _want(w):
-    return (w[0], w[1], tuple(w[2]), w[3], float(w[4]), _deep(w[5]), tuple(w[6]), _deep(w[7]))
+    return (w[0], w[1], tuple(w[2]), w[3], float(w[4]), _deep(w[5]), tuple(w[6]), _deep(w[7]), tuple(w[8]))
 
 
 class TwinSkip(Exception):
@@ -136,8 +136,8 @@ def run_one(fo, fn, vec, p):
         return {"twin_error": repr(ex)}
     out = {"want": want}
     try:
-        rx, ry, ctx, rl, rk, rw, rm, ra, rq = fo(X, Y, Bv, N, Fv)
-        out["got"] = (H.plain(rx), H.plain(ry), tuple(H.plain(rl)), H.plain(rk), _num(rw), _deep(H.plain(rm)), tuple(H.plain(ra)), _deep(H.plain(rq)))
+        rx, ry, ctx, rl, rk, rw, rm, ra, rq, rl2 = fo(X, Y, Bv, N, Fv)
+        out["got"] = (H.plain(rx), H.plain(ry), tuple(H.plain(rl)), H.plain(rk), _num(rw), _deep(H.plain(rm)), tuple(H.plain(ra)), _deep(H.plain(rq)), tuple(H.plain(rl2)))
         out["stack"] = len(ctx.stack)
         out["mism"] = H.value_wire_mismatches([rx, ry, rl, rk, rw, rm, ra, rq])
     except Exception as ex:  # noqa: BLE001
@@ -203,7 +203,7 @@ def _task(t):
                 outcomes.add(r["got"])
                 r["want"] = _want(r["want"])
                 if tuple(r["got"]) != tuple(r["want"]):
-                    report("wrong-result", vec, "oblivious program ends with (x,y,l,k,w,m,a,q)=%s, native twin with %s" % (r["got"], r["want"]))
+                    report("wrong-result", vec, "oblivious program ends with (x,y,l,k,w,m,a,q,l2)=%s, native twin with %s" % (r["got"], r["want"]))
                 if r["unsat"]:
                     report("unsat", vec, "constraints %s not satisfied by the recorded witness" % r["unsat"][:3])
                 if r["mism"]:
